@@ -141,6 +141,8 @@ class Index:
                 with warnings.catch_warnings():
                     warnings.simplefilter('ignore')
                     tree = ast.parse(src, filename=rel)
+                from .normalise import normalise
+                normalise(tree)
             except SyntaxError as e:
                 self.parse_errors[rel] = str(e)
                 continue
